@@ -136,8 +136,14 @@ def load_extra_probes():
             mod.register(sys.modules[__name__])
 
 
-def generate() -> Dict[str, Any]:
-    load_extra_probes()
+_loaded = False
+
+
+def generate(write: bool = True) -> Dict[str, Any]:
+    global _loaded
+    if not _loaded:
+        load_extra_probes()
+        _loaded = True
     lines = [
         "-- GENERATED by harness/extract.py from /repo's current sources. Do not edit by hand.",
         "import Rl4co.Core.Cmp",
@@ -158,7 +164,7 @@ def generate() -> Dict[str, Any]:
     lines += ["", "end Rl4co.Params", ""]
     text = "\n".join(lines)
     old = open(OUT).read() if os.path.exists(OUT) else None
-    if old != text:
+    if old != text and write:
         with open(OUT, "w") as f:
             f.write(text)
     return report
